@@ -155,7 +155,7 @@ def h_declared(ctx, cfg):
         ctx.refute('exact', qn, And(ex, nc, Not(Acc(rs))), info)
 
 
-DECL_QUICK = dict(groups=['declared'], Ko=0, Kc=1, kmax=1, nmax=1)
+DECL_QUICK = dict(groups=['declared'], Ko=0, Kc=1, kmax=1, nmax=1, partial=False)
 
 
 def plan(tier):
@@ -164,15 +164,15 @@ def plan(tier):
             dict(name='identity-total2', fn='h_identity', depth=9, budget_s=300, cfg=dict(K=1, total=1, names=1, flagset='lite'),
                  bounds='forwards vs embed(mask): pairs with <=1 named in total, num_args 0..len+2, <=1 name (foreign included), 20 flag combinations',
                  min_nontrivial=500, must_reach=['same-parameters', 'same-provenance']),
-            dict(name='declared-Ko1-Kc1', fn='h_declared', depth=10, budget_s=300, cfg=DECL_QUICK,
-                 bounds='4 decorators x bare outer (stars only) x callee <=1 named x <=1 fixed positional x <=1 keyword name x pristine/absent/foreign stars x emulate x partial x bound/unbound',
+            dict(name='declared-Ko0-Kc1', fn='h_declared', depth=10, budget_s=420, cfg=DECL_QUICK,
+                 bounds='4 decorators x bare outer (stars only) x callee <=1 named x <=1 fixed positional x <=1 keyword name x pristine/absent/foreign stars x emulate x bound/unbound (partial=True: identity harness and thorough tier)',
                  min_nontrivial=500, must_reach=['sound', 'exact', 'inspect-sees-the-same-signature']),
         ]
     return [
         dict(name='identity-total3', fn='h_identity', depth=10, budget_s=3000, cfg=dict(K=2, total=3, names=1, stars=True),
              bounds='forwards vs embed(mask): pairs with <=3 named in total, star-name variants, <=1 name, 32 flag combinations (time-limited)',
              min_nontrivial=500),
-        dict(name='declared-Ko1-Kc2', fn='h_declared', depth=12, budget_s=3000, cfg=dict(DECL_QUICK, Ko=1, Kc=2, kmax=2, nmax=2),
+        dict(name='declared-Ko1-Kc2', fn='h_declared', depth=12, budget_s=3000, cfg=dict(DECL_QUICK, Ko=1, Kc=2, kmax=2, nmax=2, partial=True),
              bounds='4 decorators x outer <=1 named x callee <=2 named x <=2 fixed positionals x <=2 keyword names (time-limited)',
              min_nontrivial=500),
     ]
